@@ -76,6 +76,7 @@ int wkey(std::string const& s);
 bool wev(int eid, int idx, int key);   // WITH clause idx of expectation eid on key of _1
 void wfx(int eid, int idx);            // SIDE_EFFECT clause idx
 int wret(int eid);                     // RETURN expression
+std::size_t wrt(int n);                // a bound that is only known at run time
 thrown wthrow(int eid);                // THROW expression
 
 // sequence objects named by sites
